@@ -100,8 +100,18 @@ def run(c):
     recs = [dict(name="rec_acl", policy="acl", p_variant=25, runs=n, steps=400 if thorough else 150, salt=51),
             dict(name="rec_3pol", policy="closure+acl+hop", p_variant=25, runs=n, steps=300 if thorough else 120, salt=52, attach="add"),
             dict(name="rec_2pol", policy="acl+closure", p_variant=40, runs=n, steps=300 if thorough else 120, salt=53)]
+    # lookups with MANY paths per result (8-16, most of them rejected by the real ACL; universe W)
+    recs.append(dict(name="rec_wide", u="W", policy="acl", p_variant=10, runs=n, steps=200 if thorough else 120, salt=54,
+                     cfg={"max_cache": 4}, exp_choices=(2, 4, 7)))
+    recs.append(dict(name="rec_wide_2pol", u="W", policy="closure+acl", p_variant=10, runs=n, steps=200 if thorough else 120, salt=55,
+                     cfg={"max_cache": 3}, exp_choices=(2, 4, 7), attach="add"))
+    c.cov["evaluations"] += pc.directed_replay(c, "C05", binp, "directed_wide", pc.harness_meta("W", cfg={"max_cache": 4}, policy="acl"),
+                                               pc.wide_histories())
+    c.cov["evaluations"] += pc.directed_replay(c, "C05", binp, "directed_wide_2pol",
+                                               pc.harness_meta("W", cfg={"max_cache": 4}, policy="acl+closure", attach="add"), pc.wide_histories())
     for r in recs:
-        st = pc.record_validate(c, "C05", binp, u="A", **r)
+        r.setdefault("u", "A")
+        st = pc.record_validate(c, "C05", binp, **r)
         traces += st["accepted_runs"]
         c.cov["evaluations"] += st["events"]
         c.cov["distinct_nontrivial"] += st["nontrivial"]
